@@ -40,13 +40,16 @@ def main():
                 print("PATCH FAILED", r.stdout, r.stderr)
                 return 3
         else:
-            rel, old, new = sys.argv[2:5]
+            rel = sys.argv[2]
+            pairs = sys.argv[3:]
             p = os.path.join(d, rel)
             s = open(p).read()
-            if s.count(old) != 1:
-                print(f"edit does not apply uniquely ({s.count(old)} matches)")
-                return 3
-            open(p, "w").write(s.replace(old, new))
+            for old, new in zip(pairs[0::2], pairs[1::2]):
+                if s.count(old) != 1:
+                    print(f"edit does not apply uniquely ({s.count(old)} matches): {old[:60]!r}")
+                    return 3
+                s = s.replace(old, new)
+            open(p, "w").write(s)
             compile(open(p).read(), p, "exec")
         for pr in prop.split(","):
             rc, out = run_check(pr, d)
